@@ -90,7 +90,10 @@ class CountFeatureCompressionTransformer(BaseEstimator, TransformerMixin):
         rescaled_data = scipy.sparse.csr_matrix(normed_data)
         rescaled_data.data = np.power(normed_data.data, self.rescaling_power)
         if self.algorithm == "arpack":
-            u, s, v = svds(rescaled_data, k=self.n_components)
+            # ARPACK starts from a random vector; draw it from random_state, not from numpy's global generator
+            random_state = check_random_state(self.random_state)
+            v0 = random_state.uniform(-1, 1, min(rescaled_data.shape))
+            u, s, v = svds(rescaled_data, k=self.n_components, v0=v0)
         elif self.algorithm == "randomized":
             random_state = check_random_state(self.random_state)
             u, s, v = randomized_svd(
